@@ -341,8 +341,8 @@ impl Property for C12 {
     }
     fn budget(&self, tier: Tier) -> (u32, usize) {
         match tier {
-            Tier::Quick => (120_000, 8),
-            Tier::Thorough => (2_500_000, 16),
+            Tier::Quick => (300_000, 8),
+            Tier::Thorough => (6_000_000, 16),
         }
     }
     fn run(&self, case: &HedgeCase) -> Report {
